@@ -11,8 +11,9 @@ GenNext == \E p \in Procs :
               \/ Step(p) /\ hist' = Append(hist, [proc |-> p, label |-> IF pc[p] = "dead" THEN "orphan" ELSE pc[p], kill |-> FALSE])
               \/ Crash(p, TRUE) /\ hist' = Append(hist, [proc |-> p, label |-> "crash", kill |-> TRUE])
               \/ Crash(p, FALSE) /\ hist' = Append(hist, [proc |-> p, label |-> "crash", kill |-> FALSE])
+              \/ CcKilled(p) /\ hist' = Append(hist, [proc |-> p, label |-> "cckill", kill |-> TRUE])
 GenSpec == GenInit /\ [][GenNext]_<<vars, hist>>
-Quiescent == (\A p \in Procs : pc[p] \in {"done", "dead", "idle"}) /\ ~CompilerRunning
+Quiescent == (\A p \in Procs : pc[p] \in {"done", "dead", "idle", "failed"}) /\ ~CompilerRunning
              /\ \E p \in Procs : pc[p] # "idle"
 Emit == Quiescent => PrintT(<<"BEHAVIOUR", ToJson([steps |-> hist])>>)
 =============================================================================
